@@ -21,7 +21,8 @@ import (
 type c04Case struct {
 	Forest model.Forest `json:"forest"`
 	Format string       `json:"format"`
-	Entry  string       `json:"entry"` // md | root | noiter
+	Entry  string       `json:"entry"` // md | root | noiter | md-massive
+	Again  int          `json:"again,omitempty"` // root entry: the tree was already encoded once when its last Again nodes were still missing
 }
 
 func init() { registerReplay("c04", c04Check) }
@@ -34,7 +35,12 @@ func c04Check(c c04Case) string {
 	case "root":
 		cs.Entry = "root"
 		cs.Root = &c.Forest[0].Name
-		cs.Prog = preorderProgram(c.Forest[0])
+		cs.Prog = preorderProgram(model.Merge(c.Forest)[0])
+		if c.Again > 0 && c.Again < len(cs.Prog) {
+			cs.MidProg = cs.Prog[len(cs.Prog)-c.Again:]
+			cs.Prog = cs.Prog[:len(cs.Prog)-c.Again]
+			cs.PreOps = []string{c.Format, "output"}
+		}
 	case "noiter":
 		cs.Opts.NoIter = true
 		fallthrough
@@ -127,7 +133,7 @@ func c04Record(col *collector, c c04Case) {
 	if m.Depth() >= 34 {
 		cl = append(cl, "deep>=34")
 	}
-	col.eval(hostile && m.Depth() >= 2, hash64(c.Forest.String(), c.Format, c.Entry), cl...)
+	col.eval(hostile && m.Depth() >= 2, hash64(c.Forest.String(), c.Format, c.Entry, fmt.Sprint(c.Again)), cl...)
 	col.sample(func() any { return map[string]any{"forest": c.Forest.String(), "format": c.Format, "entry": c.Entry} })
 }
 
@@ -275,7 +281,11 @@ func c04Gen() *rapid.Generator[c04Case] {
 		} else {
 			f = genForest(forestParams{maxNodes: maxNodes, maxDepth: maxDepth, names: names, oneRoot: format == "toml" || entry == "root"}).Draw(t, "forest")
 		}
-		return c04Case{Forest: f, Format: format, Entry: entry}
+		c := c04Case{Forest: f, Format: format, Entry: entry}
+		if entry == "root" && rapid.IntRange(0, 2).Draw(t, "again") == 0 {
+			c.Again = rapid.IntRange(1, 4).Draw(t, "nAgain")
+		}
+		return c
 	})
 }
 
